@@ -22,6 +22,8 @@ fn escape_go_string(value: &str) -> String {
             other if (other as u32) < 0x20 || other == '\u{7f}' => {
                 escaped.push_str(&format!("\\x{:02x}", other as u32))
             }
+            // the Go scanner rejects a byte order mark anywhere but at the start of the file
+            '\u{feff}' => escaped.push_str("\\ufeff"),
             other => escaped.push(other),
         }
     }
